@@ -339,6 +339,10 @@ def area(spec):
     array([ 18.43...])
     """
     Freq, PSD, _ = proc_psd_spec(spec)
+    # compute in double precision (the test for the slope of -1 below
+    # is at the 1e-8 level)
+    Freq = np.asarray(Freq, dtype=float)
+    PSD = np.asarray(PSD, dtype=float)
     if PSD.ndim == 1:
         PSD = PSD[:, None]
     _area = np.zeros(PSD.shape[1])
